@@ -141,3 +141,61 @@ def z3bin_check(formula, assumptions, timeout_s, binary="/usr/bin/z3"):
 def model_int(model, term):
     v = model.eval(term, model_completion=True)
     return v.as_long()
+
+
+def check_sat_forked(formula, assumptions=(), model_terms=(), timeout_s=60, kind="mixed", use_cvc5=True):
+    """Same as check_sat but in a forked child that is killed at the deadline (z3 tactics
+    do not always honour their timeout). Returns Result whose .model is a list of ints for
+    model_terms (or None)."""
+    import pickle
+    import select
+    import signal
+    if z3.is_false(formula):
+        return Result("unsat", tactic="syntactic")
+    t0 = time.time()
+    rfd, wfd = os.pipe()
+    pid = os.fork()
+    if pid == 0:
+        os.close(rfd)
+        try:
+            r = check_sat(formula, assumptions, timeout_s=timeout_s, kind=kind, use_cvc5=use_cvc5)
+            vals = None
+            if r.verdict == "sat" and r.model is not None:
+                vals = [r.model.eval(t, model_completion=True).as_long() for t in model_terms]
+            blob = pickle.dumps((r.verdict, vals, r.tactic, r.note))
+        except BaseException as e:  # noqa
+            blob = pickle.dumps(("unknown", None, None, "exception %r" % (e,)))
+        try:
+            os.write(wfd, blob)
+        finally:
+            os._exit(0)
+    os.close(wfd)
+    buf = b""
+    deadline = t0 + timeout_s * 1.25 + 15
+    verdict = ("unknown", None, None, "hard timeout")
+    while True:
+        left = deadline - time.time()
+        if left <= 0:
+            break
+        rd, _, _ = select.select([rfd], [], [], min(left, 1.0))
+        if rd:
+            chunk = os.read(rfd, 1 << 20)
+            if not chunk:
+                break
+            buf += chunk
+    os.close(rfd)
+    try:
+        os.kill(pid, signal.SIGKILL)
+    except OSError:
+        pass
+    try:
+        os.waitpid(pid, 0)
+    except OSError:
+        pass
+    if buf:
+        try:
+            verdict = pickle.loads(buf)
+        except Exception:
+            pass
+    v, vals, tactic, note = verdict
+    return Result(v, model=vals, tactic=tactic, secs=time.time() - t0, note=note)
